@@ -706,4 +706,11 @@ def r8_arguments_not_shared_between_copies(ctx):
     r3_deepcopy_completeness(ctx)
 
 
-RULES = [r8_arguments_not_shared_between_copies, r1_order_table, r2_accessor_wiring, r3_group_loop, r4_model_loop, r5_call_shape, r6_who_may_call, r7_yaml_equivalence]
+def r9_arguments_changed_only_through_their_own_key(ctx):
+    """"Exactly the arguments configured for it": a parameter applied through a key reaches the argument that key addresses and nothing else - Processor.set performs one store on the object resolved from the complete key (shared with C08.R5)."""
+    from props.C08 import r5_assignment_is_local
+
+    r5_assignment_is_local(ctx)
+
+
+RULES = [r9_arguments_changed_only_through_their_own_key, r8_arguments_not_shared_between_copies, r1_order_table, r2_accessor_wiring, r3_group_loop, r4_model_loop, r5_call_shape, r6_who_may_call, r7_yaml_equivalence]
